@@ -477,6 +477,13 @@ func appendSortObject(wr *Writer, n map[string]any, depth int) {
 }
 
 func (wr *Writer) appendStruct(rv reflect.Value, depth int, si *sinfo) {
+	if rv.Type() == timeType {
+		// A time in a typed slice, array or map. It is written as a time in
+		// a []any is, according to the time options, not as a struct without
+		// fields.
+		wr.appendJSON(rv.Interface(), depth)
+		return
+	}
 	if si == nil {
 		si = getSinfo(rv.Interface(), wr.OmitEmpty)
 	}
